@@ -4,6 +4,7 @@ package main
 // C10 maps, C11 slices, C12 structs, C13 strings, C14 printing.
 
 import (
+	"os"
 	"fmt"
 	"go/ast"
 	"go/token"
@@ -232,9 +233,42 @@ func ruleRepMapKeys(c *Ctx, r *R) {
 			r.check(guarded, mt.T+" append-guard", pos, "a key is appended to keys only when absent from data",
 				mt.T+".Set appends to keys on a path where the key was not tested absent from data ("+cs+"): updating an existing key lists it twice and range yields it twice")
 			synced := strings.Contains(cs, "!(len(m.keys) != len(m.data))") || strings.Contains(cs, "(len(m.keys) == len(m.data))")
+			if os.Getenv("GC_DEBUG") != "" {
+				fmt.Println("SETPATH", at, effs)
+			}
 			for _, e := range effs[:at] {
 				if strings.HasPrefix(e, "m.keys = ") && !strings.HasPrefix(e, "m.keys = builtin.append(m.keys, ") {
 					synced = true
+				}
+				// a new helper of the type called on m before the append: synced if every path of the
+				// helper ends synchronised (keys and data already of equal length, or keys rebuilt)
+				if strings.HasPrefix(e, "call "+mt.T+".") && strings.Contains(e, "(m") {
+					hn := strings.TrimPrefix(e, "call ")
+					hn = hn[:strings.Index(hn, "(")]
+					if hfd := c.Func(hn); hfd != nil {
+						if os.Getenv("GC_DEBUG") != "" {
+							fmt.Println("SYNCHELPER", hn, c.isNewHelper(c.Info.Defs[hfd.Name]))
+						}
+						if ho := c.Info.Defs[hfd.Name]; ho != nil && c.isNewHelper(ho) {
+							all, nP := true, 0
+							for _, hp := range c.pathsOf(hn) {
+								nP++
+								hcs := condStrings(hp)
+								okP := strings.Contains(hcs, "(len(m.keys) == len(m.data))") && !strings.Contains(hcs, "!(len(m.keys) == len(m.data))")
+								for _, he := range effStrings(hp) {
+									if strings.HasPrefix(he, "m.keys = ") && !strings.HasPrefix(he, "m.keys = builtin.append(m.keys, ") {
+										okP = true
+									}
+								}
+								if !okP {
+									all = false
+								}
+							}
+							if all && nP > 0 {
+								synced = true
+							}
+						}
+					}
 				}
 			}
 			r.check(delResync || synced, mt.T+" stale-keys", pos, "keys has no stale entry when a key is appended (Delete re-synchronises, or Set appends under len(keys)==len(data) / after a re-sync)",
@@ -737,6 +771,24 @@ func ruleRepStackEscape(c *Ctx, r *R) {
 // ---- C12 ----
 
 func ruleRepStruct(c *Ctx, r *R) {
+	// the method table is shared by reference: a by-value intMap copies the header and keeps
+	// sharing the slot array only until the table grows (the 13th method), after which
+	// instances created earlier no longer see new methods
+	if nt := c.NamedType("structT"); nt != nil {
+		if st, ok := nt.Underlying().(*types.Struct); ok {
+			found := false
+			for i := 0; i < st.NumFields(); i++ {
+				if st.Field(i).Name() == "Methods" {
+					found = true
+					_, isPtr := st.Field(i).Type().Underlying().(*types.Pointer)
+					r.check(isPtr, "Methods shared", "value.go", "structT.Methods is a pointer to the type's method table", "structT.Methods is held by value ("+st.Field(i).Type().String()+"): every instance copies the table header, so after the type's method table grows (resize allocates a new slot array) instances created before no longer find methods added later — only visible with more than 12 methods and incremental evaluation")
+				}
+			}
+			if !found {
+				r.undecided("Methods shared", "value.go", "structT has no Methods field")
+			}
+		}
+	}
 	for _, fn := range []string{"NewStruct", "newStructByIndex"} {
 		ps := c.pathsOf(fn)
 		if len(ps) == 0 {
@@ -1197,7 +1249,65 @@ func ruleErrDropLit(c *Ctx, r *R) {
 
 // ---- C14 ----
 
+// staleKeysRule (part of REP-PRINT and REP-MAPKEYS): `keys` may list keys that were deleted
+// (Delete compacts lazily), so whoever walks `keys` must look each key up with the
+// comma-ok form and skip the misses.  A plain m.data[k] yields the zero Value for a stale
+// key, which prints as `k:nil` (and would be yielded by a range).
+func staleKeysRule(c *Ctx, r *R) {
+	n := 0
+	for _, name := range c.FuncNames() {
+		if !strings.HasPrefix(name, "stringMap.") && !strings.HasPrefix(name, "numericMap.") {
+			continue
+		}
+		fd := c.Func(name)
+		if fd.Body == nil {
+			continue
+		}
+		ast.Inspect(fd.Body, func(nd ast.Node) bool {
+			rs, ok := nd.(*ast.RangeStmt)
+			if !ok {
+				return true
+			}
+			sel, ok := unparen(rs.X).(*ast.SelectorExpr)
+			if !ok || sel.Sel.Name != "keys" {
+				return true
+			}
+			kv, ok := rs.Value.(*ast.Ident)
+			if !ok {
+				return true
+			}
+			ko := c.Info.Defs[kv]
+			ast.Inspect(rs.Body, func(m ast.Node) bool {
+				ix, ok := m.(*ast.IndexExpr)
+				if !ok {
+					return true
+				}
+				ds, ok := unparen(ix.X).(*ast.SelectorExpr)
+				if !ok || ds.Sel.Name != "data" {
+					return true
+				}
+				id, ok := unparen(ix.Index).(*ast.Ident)
+				if !ok || c.Obj(id) != ko {
+					return true
+				}
+				n++
+				commaOK := false
+				if as, ok := c.Parent(ix).(*ast.AssignStmt); ok && len(as.Lhs) == 2 && len(as.Rhs) == 1 && unparen(as.Rhs[0]) == ast.Expr(ix) {
+					commaOK = true
+				}
+				r.check(commaOK, "stale keys "+name, c.Pos(ix), "keys are looked up with the comma-ok form", name+" walks the key list and reads data[k] without the comma-ok form: a key that was deleted but is still listed (Delete compacts lazily) yields the zero Value — `m := map[string]int{\"a\":1,\"b\":2}; delete(m, \"a\"); println(m)` prints map[a:nil b:2]")
+				return true
+			})
+			return true
+		})
+	}
+	if n == 0 {
+		r.ok("stale keys", "no walk over keys reads data without comma-ok")
+	}
+}
+
 func ruleRepPrint(c *Ctx, r *R) {
+	staleKeysRule(c, r)
 	// isSafeStr is false exactly for the element-iterating tags
 	ps := c.pathsOf("Type.isSafeStr")
 	falseTags := map[string]bool{}
